@@ -37,6 +37,8 @@ C16_INT(uint8_t, "u8")
 C16_INT(int8_t, "s8")
 C16_INT(uint16_t, "u16")
 C16_INT(int16_t, "s16")
+C16_INT(uint32_t, "u32")
+C16_INT(int32_t, "s32")
 template <> struct CT<gil::float32_t> {
     static const char* name() { return "f32"; }
     static const bool is_float = true;
@@ -68,14 +70,30 @@ static double model_op(int op, double px, double t, double maxv) {
     return 0;
 }
 
-// swap: destination layout is the reverse of the source layout (rgb -> bgr): channels pair by colour
-template <class SrcImage, class DstPixel> void run_threshold(const char* lname, bool swap) {
+// threshold_truncate does not instantiate when exactly one of source / destination has a float32 channel
+// (recorded by the probes c16_probe_mixed.cpp); threshold_binary does.
+template <class SV, class DV, class T>
+void call_truncate(SV const& s, DV const& d, T tv, threshold_truncate_mode m, threshold_direction dir, std::true_type) { gil::threshold_truncate(s, d, tv, m, dir); }
+template <class SV, class DV, class T>
+void call_truncate(SV const&, DV const&, T, threshold_truncate_mode, threshold_direction, std::false_type) {}
+
+// Source image type and destination pixel type may differ in channel order AND in channel type.  The oracle compares the
+// exact source value (double holds every 8/16/32-bit integer and every float exactly) with the threshold, which is a value
+// of the destination channel type, as documented (dst = src > threshold ? max : 0 ...); channels pair by colour.
+// A truncate result that means "source value unchanged" is judged only when that value is representable in the destination type.
+template <class SrcImage, class DstPixel> void run_threshold(const char* lname) {
     typedef typename SrcImage::value_type src_pixel;
     typedef typename gil::channel_type<DstPixel>::type ch_t;
-    typedef CT<ch_t> M;
+    typedef typename gil::channel_type<src_pixel>::type sch_t;
+    typedef CT<ch_t> M;        // destination channel: thresholds, max values, results
+    typedef CT<sch_t> MS;      // source channel: contents
+    const bool same_type = std::is_same<ch_t, sch_t>::value;
+    typedef std::integral_constant<bool, (M::is_float == MS::is_float)> with_truncate;
     const int NC = gil::num_channels<src_pixel>::value;
+    const std::vector<int> sp = cu::phys_of_colour<src_pixel>(), dp = cu::phys_of_colour<DstPixel>();
     const int maxdim = vh::thorough() ? 8 : 5;
-    std::string cls = vh::cat(M::name(), ".", lname);
+    std::string cls = same_type ? vh::cat(M::name(), ".", lname) : vh::cat(MS::name(), "-to-", M::name(), ".", lname);
+    const double dspan = M::is_float ? 256.0 : M::hi() - M::lo() + 1;      // aliasing period of a narrowing conversion to the destination type
     for (int w = 0; w <= maxdim; ++w)
         for (int h = 0; h <= maxdim; ++h) {
             if (!vh::begin_case(vh::cat("threshold.", cls), vh::cat(w, "x", h))) continue;
@@ -83,31 +101,46 @@ template <class SrcImage, class DstPixel> void run_threshold(const char* lname, 
             SrcImage src(w, h);
             auto sv = gil::subimage_view(gil::view(src), 0, 0, w, h);
             std::vector<double> values;
-            const int mode = (int)r.below(3);      // full range / few levels / clustered
-            double base = M::rnd(r);
+            // content classes: full source range / few levels / clustered around a destination-range value /
+            // aliases of destination-range values (value + k * 2^bits(dst), sign-reinterpretations): the narrowed or
+            // reinterpreted value lies on the other side of many thresholds than the true value
+            // (+ for integral sources of another type: the special values of both channel types -- range ends, -1, 0, 1,
+            // 2^31-1, 2^31, ... -- and their neighbours, mixed with seeded values)
+            const int mode = (int)r.below(same_type ? 3 : (MS::is_float ? 4 : 5));
+            auto sclamp = [&](double v) { return std::min(MS::hi(), std::max(MS::lo(), v)); };
+            auto srnd = [&]() { return (MS::is_float && !M::is_float) ? (double)(float)(r.unit() * 255.99) : MS::rnd(r); };
+            double base = sclamp(M::is_float && !MS::is_float ? (double)r.below(3) : M::rnd(r));
             for (int y = 0; y < h; ++y)
                 for (int x = 0; x < w; ++x)
                     for (int c = 0; c < NC; ++c) {
                         double v;
-                        if (mode == 0) v = M::rnd(r);
-                        else if (mode == 1) v = M::is_float ? (double)(float)(r.below(5) / 4.0) : std::min(M::hi(), std::max(M::lo(), base + (double)r.below(4)));
-                        else v = M::is_float ? M::rnd(r) : std::min(M::hi(), std::max(M::lo(), base + (double)r.range(-40, 40)));
-                        sv(x, y)[c] = M::make(v);
+                        if (mode == 0) v = srnd();
+                        else if (mode == 1) v = MS::is_float ? (M::is_float ? (double)(float)(r.below(5) / 4.0) : (double)(float)(base + r.below(5) / 4.0)) : sclamp(base + (double)r.below(4));
+                        else if (mode == 2) v = MS::is_float ? (M::is_float ? MS::rnd(r) : (double)(float)(base + r.unit() * 3 - 1.5)) : sclamp(base + (double)r.range(-40, 40));
+                        else if (mode == 3) v = MS::is_float ? srnd() : sclamp(M::rnd(r) + dspan * (double)r.range(-3, 3));
+                        else {
+                            const double sp_[] = {MS::lo(), MS::hi(), M::lo(), M::hi(), -1, 0, 1, 2147483647.0, 2147483648.0, 4294967295.0, -2147483648.0};
+                            v = r.coin() ? sclamp(sp_[r.below(11)] + (double)r.range(-1, 1)) : srnd();
+                        }
+                        if (MS::is_float && v < 0) v = 0;
+                        sv(x, y)[c] = MS::make(v);
                         values.push_back(cu::num(sv(x, y)[c]));
                     }
-            std::vector<unsigned char> snap = cu::snapshot(src);
-            // thresholds
+            std::vector<double> snap = cu::values_of(gil::const_view(src));
+            // thresholds: values of the destination channel type
             std::vector<double> ts;
+            auto tpush = [&](double t) { if (t >= M::lo() && t <= M::hi()) ts.push_back(t); };
             if (!M::is_float && M::hi() - M::lo() <= 255) {
                 for (double t = M::lo(); t <= M::hi(); ++t) ts.push_back(t);
             } else if (!M::is_float) {
-                const double fix[] = {M::lo(), M::lo() + 1, M::hi() - 1, M::hi(), -1, 0, 1, 255, 256, 32767, 32768};
-                for (double t : fix) if (t >= M::lo() && t <= M::hi()) ts.push_back(t);
+                const double fix[] = {M::lo(), M::lo() + 1, M::hi() - 1, M::hi(), -2, -1, 0, 1, 127, 128, 255, 256, 32767, 32768, 65535, 65536,
+                                      2147483646.0, 2147483647.0, 2147483648.0, 2147483649.0, 4294967294.0, 4294967295.0, -2147483648.0, -2147483647.0};
+                for (double t : fix) tpush(t);
                 for (size_t i = 0; i < values.size() && i < 24; ++i)
-                    for (int d = -1; d <= 1; ++d) { double t = values[i] + d; if (t >= M::lo() && t <= M::hi()) ts.push_back(t); }
+                    for (int d = -1; d <= 1; ++d) tpush(std::floor(values[i]) + d);
                 int nr = vh::thorough() ? 64 : 16;
                 for (int i = 0; i < nr; ++i) ts.push_back(M::rnd(r));
-            } else {
+            } else if (MS::is_float) {
                 const double fix[] = {0.0, 1.0, 0.5, 0.25, 0.75};
                 for (double t : fix) ts.push_back(t);
                 for (size_t i = 0; i < values.size() && i < 24; ++i) {
@@ -116,14 +149,20 @@ template <class SrcImage, class DstPixel> void run_threshold(const char* lname, 
                     ts.push_back((double)std::nextafter((float)values[i], -1.0f) >= 0.0 ? (double)std::nextafter((float)values[i], -1.0f) : 0.0);
                 }
                 for (int i = 0; i < 16; ++i) ts.push_back(M::rnd(r));
+            } else {   // integral source, float32 destination: the threshold is a float32 value
+                const double fix[] = {0.0, 0.5, 1.0, 1.5, 127.5, 254.5, 255.0};
+                for (double t : fix) ts.push_back(t);
+                for (size_t i = 0; i < values.size() && i < 24; ++i) { ts.push_back(values[i]); ts.push_back(values[i] + 0.5); ts.push_back(values[i] - 0.5); }
+                for (int i = 0; i < 16; ++i) ts.push_back((double)(float)(r.unit() * 300));
             }
             std::sort(ts.begin(), ts.end());
             ts.erase(std::unique(ts.begin(), ts.end()), ts.end());
             if (w == 3 && h == 2)
-                vh::sample(vh::cat("threshold_binary/truncate(", cls, " ", w, "x", h, ", ", ts.size(), " thresholds x 8 mode/direction variants) == per-channel definition, dst in noise arena"));
+                vh::sample(vh::cat("threshold_binary/truncate(", cls, " ", w, "x", h, ", ", ts.size(), " thresholds x 8 mode/direction variants) == per-channel definition on the exact source value, dst in noise arena"));
             auto csv = gil::subimage_view(gil::const_view(src), 0, 0, w, h);   // explicit dimensions (an image built as 0xN reports 0x0)
             for (double t : ts)
                 for (int op = 0; op < OP_N; ++op) {
+                    if (op >= OP_TT_REG && !with_truncate::value) continue;
                     cu::arena<DstPixel> ar(w, h, r, 1, 1);
                     auto dv = ar.dst();
                     ch_t tv = M::make(t);
@@ -135,16 +174,19 @@ template <class SrcImage, class DstPixel> void run_threshold(const char* lname, 
                         case OP_BIN_INV: gil::threshold_binary(csv, dv, tv, threshold_direction::inverse); break;
                         case OP_BINMAX_REG: gil::threshold_binary(csv, dv, tv, mv, threshold_direction::regular); break;
                         case OP_BINMAX_INV: gil::threshold_binary(csv, dv, tv, mv, threshold_direction::inverse); break;
-                        case OP_TT_REG: gil::threshold_truncate(csv, dv, tv, threshold_truncate_mode::threshold, threshold_direction::regular); break;
-                        case OP_TT_INV: gil::threshold_truncate(csv, dv, tv, threshold_truncate_mode::threshold, threshold_direction::inverse); break;
-                        case OP_TZ_REG: gil::threshold_truncate(csv, dv, tv, threshold_truncate_mode::zero, threshold_direction::regular); break;
-                        case OP_TZ_INV: gil::threshold_truncate(csv, dv, tv, threshold_truncate_mode::zero, threshold_direction::inverse); break;
+                        case OP_TT_REG: call_truncate(csv, dv, tv, threshold_truncate_mode::threshold, threshold_direction::regular, with_truncate()); break;
+                        case OP_TT_INV: call_truncate(csv, dv, tv, threshold_truncate_mode::threshold, threshold_direction::inverse, with_truncate()); break;
+                        case OP_TZ_REG: call_truncate(csv, dv, tv, threshold_truncate_mode::zero, threshold_direction::regular, with_truncate()); break;
+                        case OP_TZ_INV: call_truncate(csv, dv, tv, threshold_truncate_mode::zero, threshold_direction::inverse, with_truncate()); break;
                     }
                     for (int y = 0; y < h; ++y)
                         for (int x = 0; x < w; ++x)
-                            for (int c = 0; c < NC; ++c) {
-                                double px = cu::num(csv(x, y)[swap ? NC - 1 - c : c]);
-                                ar.set(x, y, c, model_op(op, px, cu::num(tv), cu::num(mv)), cu::K_A);
+                            for (int c = 0; c < NC; ++c) {      // c is a colour index
+                                double px = cu::num(csv(x, y)[sp[(size_t)c]]);
+                                double want = model_op(op, px, cu::num(tv), cu::num(mv));
+                                bool representable = want >= M::lo() && want <= M::hi() && (M::is_float || want == std::floor(want));
+                                if (M::is_float && !same_type) representable = (double)(float)want == want;
+                                ar.set(x, y, dp[(size_t)c], representable ? want : cu::num(dv(x, y)[dp[(size_t)c]]), cu::K_A);
                             }
                     cu::cmp_result res = ar.compare(0.0);
                     if (res.any()) {
@@ -155,7 +197,7 @@ template <class SrcImage, class DstPixel> void run_threshold(const char* lname, 
                     vh::evals(1);
                     vh::distinct(1);
                 }
-            if (!cu::same_bytes(src, snap)) vh::viol(vh::cat("src-modified.threshold.", cls), "source bytes changed");
+            if (cu::values_of(gil::const_view(src)) != snap) vh::viol(vh::cat("src-modified.threshold.", cls), "source values changed");
         }
 }
 
@@ -221,8 +263,12 @@ template <class T> std::vector<double> otsu_plane(int k, int n, vh::rng& r) {
 // Image = source image type; P = destination pixel type (same colour space, possibly another channel order):
 // the binarisation is judged per COLOUR
 template <class Image, class P = typename Image::value_type> void run_otsu(const char* lname) {
-    typedef typename gil::channel_type<P>::type T;
-    typedef CT<T> M;
+    typedef typename gil::channel_type<P>::type T;                                   // destination channel
+    typedef typename gil::channel_type<typename Image::value_type>::type TS;         // source channel (8/16-bit integral)
+    typedef CT<T> MD;
+    typedef CT<TS> M;
+    const bool same_type = std::is_same<T, TS>::value;
+    const std::string tname = same_type ? std::string(M::name()) : vh::cat(M::name(), "-to-", MD::name());
     const int NC = gil::num_channels<P>::value;
     const std::vector<int> sp = cu::phys_of_colour<typename Image::value_type>(), dp = cu::phys_of_colour<P>();   // colour -> memory position
     std::vector<std::pair<int, int>> shapes;
@@ -230,7 +276,7 @@ template <class Image, class P = typename Image::value_type> void run_otsu(const
     else { const int s[][2] = {{2, 1}, {1, 2}, {3, 1}, {3, 2}, {2, 3}, {4, 4}, {5, 3}, {1, 5}}; for (auto& p : s) shapes.push_back({p[0], p[1]}); }
     for (int k = 0; k < O_N; ++k) {
         if ((k == O_ONE_ZERO || k == O_CONST_ZERO) && M::lo() == 0) continue;   // same as the -lo classes
-        std::string cls = vh::cat("otsu.", M::name(), ".", lname, ".", oname(k));
+        std::string cls = vh::cat("otsu.", tname, ".", lname, ".", oname(k));
         std::vector<std::pair<int, int>> sh;
         if (k == O_EMPTY) sh = {{0, 0}, {0, 3}, {3, 0}};
         else if (k >= O_ONE_LO && k <= O_ONE_MID) sh = {{1, 1}};
@@ -243,7 +289,7 @@ template <class Image, class P = typename Image::value_type> void run_otsu(const
             auto sv = gil::view(src);
             for (int c = 0; c < NC; ++c) {
                 if (w * h == 0) break;
-                std::vector<double> plane = otsu_plane<T>(k, w * h, r);
+                std::vector<double> plane = otsu_plane<TS>(k, w * h, r);
                 for (int y = 0; y < h; ++y)
                     for (int x = 0; x < w; ++x) sv(x, y)[c] = M::make(plane[(size_t)y * w + x]);
             }
@@ -265,13 +311,13 @@ template <class Image, class P = typename Image::value_type> void run_otsu(const
                         for (int x = 0; x < w; ++x)
                             for (int c = 0; c < NC; ++c) ar.set(x, y, c, cu::num(dv(x, y)[c]), cu::K_A);
                     cu::cmp_result res = ar.compare(0.0);
-                    if (res.outside_bad) vh::viol(vh::cat("outside-dst.otsu.", M::name(), ".", lname), ctx + res.first_outside);
+                    if (res.outside_bad) vh::viol(vh::cat("outside-dst.otsu.", tname, ".", lname), ctx + res.first_outside);
                 }
                 // (b) per channel: output values are 0 / max and one threshold T (a value of the channel type) explains them
                 for (int c = 0; c < NC; ++c) {
-                    const double MAXV = M::hi();
+                    const double MAXV = MD::deduced_max();
                     double max_off = -1e300, min_on = 1e300;        // "on" = the side that threshold_binary maps to px > T
-                    bool bad_value = false, on_at_lo = false;
+                    bool bad_value = false;
                     std::string wit;
                     for (int y = 0; y < h; ++y)
                         for (int x = 0; x < w; ++x) {
@@ -279,21 +325,25 @@ template <class Image, class P = typename Image::value_type> void run_otsu(const
                             if (o != 0 && o != MAXV) { if (!bad_value) wit = vh::cat("dst(", x, ",", y, ")[", c, "]=", o, " is neither 0 nor ", MAXV); bad_value = true; continue; }
                             bool greater_side = dir == 0 ? (o == MAXV) : (o == 0);   // regular: px > T -> max; inverse: px > T -> 0
                             if (MAXV == 0) greater_side = false;
-                            if (greater_side) { min_on = std::min(min_on, s); if (s == M::lo()) on_at_lo = true; }
+                            if (greater_side) min_on = std::min(min_on, s);
                             else max_off = std::max(max_off, s);
                         }
-                    if (bad_value) vh::viol(vh::cat("otsu-output-values.", M::name(), ".", lname, ".", dn), ctx + wit);
-                    else if (!(max_off < min_on) || on_at_lo)
-                        vh::viol(vh::cat("otsu-single-threshold.", M::name(), ".", lname, ".", dn),
+                    // a threshold T of the DESTINATION channel type with  off-side <= T < on-side  (comparison on the exact source value)
+                    // (a float32 channel can hold any float, its nominal range [0,1] does not bound T)
+                    const double tlo = MD::is_float ? -1e300 : MD::lo(), thi = MD::is_float ? 1e300 : MD::hi();
+                    const double lowT = std::max(max_off, tlo);
+                    if (bad_value) vh::viol(vh::cat("otsu-output-values.", tname, ".", lname, ".", dn), ctx + wit);
+                    else if (!(lowT < min_on) || !(lowT <= thi))
+                        vh::viol(vh::cat("otsu-single-threshold.", tname, ".", lname, ".", dn),
                                  ctx + vh::cat("colour ", c, ": a source value ", max_off, " is on the '<= T' side while ", min_on, " is on the '> T' side"));
                     if (k == O_TWO_LASTHI || k == O_TWO_LASTLO)
-                        vh::obs(vh::cat("otsu.two-level.", (max_off > -1e300 && min_on < 1e300) ? "separated." : "not-separated.", M::name()));
+                        vh::obs(vh::cat("otsu.two-level.", (max_off > -1e300 && min_on < 1e300) ? "separated." : "not-separated.", tname));
                 }
                 vh::evals(1);
                 vh::distinct(1);
-                vh::obs(vh::cat("otsu.completed.", M::name(), ".", oname(k)));
+                vh::obs(vh::cat("otsu.completed.", tname, ".", oname(k)));
             }
-            if (cu::values_of(gil::const_view(src)) != snap) vh::viol(vh::cat("src-modified.otsu.", M::name(), ".", lname), "source values changed");
+            if (cu::values_of(gil::const_view(src)) != snap) vh::viol(vh::cat("src-modified.otsu.", tname, ".", lname), "source values changed");
         }
     }
 }
@@ -304,13 +354,13 @@ int main(int argc, char** argv) {
 #define C16_PART 0
 #endif
 #if C16_PART == 0
-    run_threshold<gil::gray8_image_t, gil::gray8_pixel_t>("gray", false);
-    run_threshold<gil::rgb8_image_t, gil::rgb8_pixel_t>("rgb", false);
-    run_threshold<gil::rgb8_image_t, gil::bgr8_pixel_t>("rgb-to-bgr", true);
-    run_threshold<gil::gray16_image_t, gil::gray16_pixel_t>("gray", false);
-    run_threshold<gil::rgb16_image_t, gil::rgb16_pixel_t>("rgb", false);
-    run_threshold<gil::gray16s_image_t, gil::gray16s_pixel_t>("gray", false);
-    run_threshold<gil::rgb16s_image_t, gil::rgb16s_pixel_t>("rgb", false);
+    run_threshold<gil::gray8_image_t, gil::gray8_pixel_t>("gray");
+    run_threshold<gil::rgb8_image_t, gil::rgb8_pixel_t>("rgb");
+    run_threshold<gil::rgb8_image_t, gil::bgr8_pixel_t>("rgb-to-bgr");
+    run_threshold<gil::gray16_image_t, gil::gray16_pixel_t>("gray");
+    run_threshold<gil::rgb16_image_t, gil::rgb16_pixel_t>("rgb");
+    run_threshold<gil::gray16s_image_t, gil::gray16s_pixel_t>("gray");
+    run_threshold<gil::rgb16s_image_t, gil::rgb16s_pixel_t>("rgb");
 #elif C16_PART == 1
     run_otsu<gil::gray8_image_t>("gray");
     run_otsu<gil::rgb8_image_t>("rgb");
@@ -326,9 +376,45 @@ int main(int argc, char** argv) {
     run_otsu<gil::rgba8_image_t, gil::abgr8_pixel_t>("rgba8-to-abgr8");
     run_otsu<gil::rgb8_planar_image_t, gil::bgr8_pixel_t>("rgb8planar-to-bgr8");
     run_otsu<gil::rgb16_image_t, gil::bgr16_pixel_t>("rgb16-to-bgr16");
+#elif C16_PART == 4   // threshold_binary/truncate, source and destination of different channel types: wider -> narrower
+    run_threshold<gil::gray16_image_t, gil::gray8_pixel_t>("gray");
+    run_threshold<gil::rgb16_image_t, gil::bgr8_pixel_t>("rgb-to-bgr");
+    run_threshold<gil::gray16s_image_t, gil::gray8_pixel_t>("gray");
+    run_threshold<gil::gray32_image_t, gil::gray8_pixel_t>("gray");
+    run_threshold<gil::gray32s_image_t, gil::gray8_pixel_t>("gray");
+    run_threshold<gil::gray32s_image_t, gil::gray16_pixel_t>("gray");
+#elif C16_PART == 5   // same width, signedness differs; narrower -> wider
+    run_threshold<gil::gray8s_image_t, gil::gray8_pixel_t>("gray");
+    run_threshold<gil::gray8_image_t, gil::gray8s_pixel_t>("gray");
+    run_threshold<gil::rgb16s_image_t, gil::rgb16_pixel_t>("rgb");
+    run_threshold<gil::gray16_image_t, gil::gray16s_pixel_t>("gray");
+    run_threshold<gil::gray8_image_t, gil::gray16_pixel_t>("gray");
+    run_threshold<gil::gray8s_image_t, gil::gray16_pixel_t>("gray");
+    run_threshold<gil::rgb8_image_t, gil::bgr16s_pixel_t>("rgb-to-bgr");
+#elif C16_PART == 8   // 32-bit channels of the same width and different signedness
+    run_threshold<gil::gray32s_image_t, gil::gray32_pixel_t>("gray");
+    run_threshold<gil::gray32_image_t, gil::gray32s_pixel_t>("gray");
+    run_threshold<gil::rgb32s_image_t, gil::bgr32_pixel_t>("rgb-to-bgr");
+    run_threshold<gil::rgb32_image_t, gil::rgb32s_pixel_t>("rgb");
+#elif C16_PART == 6   // float32 on one side only (threshold_binary; threshold_truncate does not instantiate)
+    run_threshold<gil::gray32f_image_t, gil::gray8_pixel_t>("gray");
+    run_threshold<gil::gray8_image_t, gil::gray32f_pixel_t>("gray");
+    run_threshold<gil::gray16_image_t, gil::gray32f_pixel_t>("gray");
+    run_threshold<gil::rgb32f_image_t, gil::bgr8_pixel_t>("rgb-to-bgr");
+#elif C16_PART == 7   // Otsu, source and destination of different channel types
+    run_otsu<gil::gray16_image_t, gil::gray8_pixel_t>("gray");
+    run_otsu<gil::rgb16_image_t, gil::bgr8_pixel_t>("rgb-to-bgr");
+    run_otsu<gil::gray16s_image_t, gil::gray8_pixel_t>("gray");
+    run_otsu<gil::gray8s_image_t, gil::gray8_pixel_t>("gray");
+    run_otsu<gil::gray8_image_t, gil::gray8s_pixel_t>("gray");
+    run_otsu<gil::gray16s_image_t, gil::gray16_pixel_t>("gray");
+    run_otsu<gil::gray16_image_t, gil::gray16s_pixel_t>("gray");
+    run_otsu<gil::gray8_image_t, gil::gray16_pixel_t>("gray");
+    run_otsu<gil::gray8s_image_t, gil::gray16_pixel_t>("gray");
+    run_otsu<gil::gray8_image_t, gil::gray32f_pixel_t>("gray");
 #else   // C16_PART == 2: float32 channels (needs a tree where threshold_binary/truncate compile for them)
-    run_threshold<gil::gray32f_image_t, gil::gray32f_pixel_t>("gray", false);
-    run_threshold<gil::rgb32f_image_t, gil::rgb32f_pixel_t>("rgb", false);
+    run_threshold<gil::gray32f_image_t, gil::gray32f_pixel_t>("gray");
+    run_threshold<gil::rgb32f_image_t, gil::rgb32f_pixel_t>("rgb");
 #endif
     return vh::finish();
 }
